@@ -14,7 +14,10 @@ def run(chk, tier):
                 "credits match the work it did (marked once per object leaving White, untraced once per "
                 "Black->Gray re-queue); count pairing: mark_gc_allocated exactly once per link and only there, "
                 "mark_gc_freed after every dealloc of a linked object; subtraction sites are confined; the debt "
-                "formula is clamped and zero for an empty arena.")
+                "formula, interpreted on opaque symbols, is clamped at zero on every path, zero for an empty arena (the "
+                "first decision), non-decreasing in allocations and artificial debt (unit coefficient) and "
+                "non-increasing in the five work counters; each mark_gc_* helper adds/subtracts its argument on the "
+                "named counters only; adjust_debt adds its argument to artificial_debt and touches nothing else.")
     chk.not_decided += ["overflow of usize counters by addition (needs > 2^64 events)",
                         "finiteness of the debt under adjust_debt(+-inf/NaN)",
                         "equality of total_gc_count with an allocator-side count on concrete histories"]
@@ -23,5 +26,8 @@ def run(chk, tier):
               "forward_barrier_weak", "mark_one", "sweep_one", "link", "drop_all"):
         typestate.apply(chk, "credits-match-work:" + t, t)
     typestate.report_automaton(chk, ["S4", "PANIC"])
-    from gcv import rules_metrics
+    from gcv import rules_metrics, rules_debt
     rules_metrics.run(chk, prog)
+    # debt is clamped / zero for an empty arena / monotone in its inputs; helper and adjust_debt shapes
+    rules_debt.check_formula(chk, prog)
+    rules_debt.check_helpers(chk, prog)
